@@ -51,8 +51,9 @@ async def main():
 
     d = tempfile.mkdtemp()
     for run, names in spec["runs"].items():
-        InternalStateServer._topics.clear()
-        InternalStateServer._subscribers.clear()
+        sys.path.insert(0, os.path.dirname(os.path.abspath(__file__)))
+        from buses import reset_internal_bus
+        reset_internal_bus()
         adapters, comps = {}, {}
         for i, n in enumerate(names):
             dev = Dev(1.5 + i)
